@@ -34,7 +34,7 @@ W = D.WARMUP
 LENGTHS_Q = [200, W, W + 1, 300]
 LENGTHS_T = [150, 200, W - 1, W, W + 1, W + 2, 300, 480]
 KINDS_Q = ["random", "spike"]
-KINDS_T = ["random", "spike", "trend", "flat", "alternating", "real"]
+KINDS_T = ["random", "spike", "trend", "flat", "real"]
 
 
 def job(item):
@@ -117,7 +117,7 @@ def plan(ctx, cat):
     rng = random.Random(ctx.seed + 14)
     kinds = ctx.pick(KINDS_Q, KINDS_T)
     lengths = ctx.pick(LENGTHS_Q, LENGTHS_T)
-    nvar = ctx.pick(3, 8)
+    nvar = ctx.pick(3, 5)
     cases = [(k, n, 1 + i) for i, k in enumerate(kinds) for n in lengths]
     return [(e, D.variants(e, rng, nvar, sweep=not ctx.quick), cases) for e in cat if e["sequential"]]
 
@@ -182,7 +182,7 @@ def run(ctx):
     if silent:
         raise Machinery("no trace recorded for %s (the generic caller no longer fits)" % silent)
     ctx.log("%d traces from %d calls (%d skipped)" % (len(traces), calls, skipped))
-    verdicts, results, bad = judge(ctx, traces, parts=16)
+    verdicts, results, bad = judge(ctx, traces, parts=ctx.pick(16, 48))
     for t in traces:
         h = t["hdr"]
         if h["finite"] >= 30:
